@@ -154,6 +154,8 @@ _add_unit("C05", {"name": "balloons-histories", "pkg": RESMGR, "run": "^TestVeri
 _add_unit("C04", {"name": "balloons-memory", "pkg": RESMGR, "run": "^TestVerifC04Balloons$", "replay_run": "^TestVerifC04BalloonsReplay$", "q": 200, "t": 40000, "per_proc": 500})
 _add_unit("C09", {"name": "balloons-leaks", "pkg": RESMGR, "run": "^TestVerifC09Balloons$", "replay_run": "^TestVerifC09BalloonsReplay$", "q": 200, "t": 40000, "per_proc": 500})
 _add_unit("C12", {"name": "balloons-optouts", "pkg": RESMGR, "run": "^TestVerifC12Balloons$", "replay_run": "^TestVerifC12BalloonsReplay$", "q": 200, "t": 40000, "per_proc": 500})
+_add_unit("C12", {"name": "ta-optouts-restart", "pkg": RESMGR, "run": "^TestVerifC12RestartTA$", "replay_run": "^TestVerifC11Replay$", "q": 120, "t": 16000, "per_proc": 500})
+_add_unit("C12", {"name": "balloons-optouts-restart", "pkg": RESMGR, "run": "^TestVerifC12RestartBalloons$", "replay_run": "^TestVerifC11Replay$", "q": 120, "t": 16000, "per_proc": 500})
 _hist("C13", [
     {"name": "identical-ta", "pkg": RESMGR, "run": "^TestVerifC13IdenticalTA$", "replay_run": "^TestVerifC13IdenticalTAReplay$", "q": 120, "t": 24000, "per_proc": 500},
     {"name": "identical-balloons", "pkg": RESMGR, "run": "^TestVerifC13IdenticalBalloons$", "replay_run": "^TestVerifC13IdenticalBalloonsReplay$", "q": 120, "t": 24000, "per_proc": 500},
